@@ -97,9 +97,15 @@ class LibMixin:
     def lib_path_Join(self, st, recv, argv, e):
         parts = argv[0]
         items = self.slice_elems(st, parts)
+        # path.Join ignores empty elements; the result is empty only if every element is
         if items is None:
             # variadic slice of unknown length: identity of the whole list
-            return self.string_with_ident(st, joinid(self.ident_of(st, parts)))
-        return self.string_with_ident(st, joinid(chain([self.ident_of(st, x) for x in items])))
+            r = self.string_with_ident(st, joinid(self.ident_of(st, parts)))
+            k = fresh('k!j')
+            st.assume(z3.Implies(r.len == 0, z3.ForAll([k], z3.Implies(z3.And(0 <= k, k < parts.len), z3.Select(parts.arrs[2], parts.off + k) == 0))))
+            return r
+        r = self.string_with_ident(st, joinid(chain([self.ident_of(st, x) for x in items])))
+        st.assume(z3.Implies(r.len == 0, z3.And([x.len == 0 for x in items])))
+        return r
 
     lib_path_filepath_Join = lib_path_Join
